@@ -273,82 +273,94 @@ Inductive lstate := LHeader | LText.
 
 Definition zlen (s : bytes) : Z := Z.of_nat (length s).
 
-Fixpoint lex_from (fuel : nat) (st : lstate) (s : bytes) (off : Z) : list token :=
-  match fuel with
-  | O => []
-  | S f =>
-    let continue_ st' (tok : token) (r : bytes) := tok :: lex_from f st' r (off + zlen (t_val tok)) in
-    let skip (n : nat) := lex_from f st (skipn n s) (off + Z.of_nat n) in
+(* one step of the lexer at a position: a token and where to go on, nothing but
+   where to go on (white space), or the end of the stream *)
+Inductive lstep :=
+| LEmit (tok : token) (st : lstate) (rest : bytes) (off : Z)
+| LSkip (st : lstate) (rest : bytes) (off : Z)
+| LStop (last : list token).
+
+Definition lex_step1 (st : lstate) (s : bytes) (off : Z) : lstep :=
     if starts_with slashes s then
       let '(c, r, at_end) := lex_comment s in
-      mk TComment c off :: (if at_end then [mk TEOF (B"EOF"%string) (off + zlen c)]
-                            else lex_from f st r (off + zlen c))
+      if at_end then LStop [mk TComment c off; mk TEOF (B"EOF"%string) (off + zlen c)]
+      else LEmit (mk TComment c off) st r (off + zlen c)
     else
     match st with
     | LHeader =>
       match match_sf s with
-      | Some (m, r) => mk TStreamFunction (to_upper m) off :: lex_from f LHeader r (off + zlen m)
+      | Some (m, r) => LEmit (mk TStreamFunction (to_upper m) off) LHeader r (off + zlen m)
       | None =>
       match match_wbit s with
-      | Some (m, r) => mk TWaitBit (to_upper m) off :: lex_from f LHeader r (off + zlen m)
+      | Some (m, r) => LEmit (mk TWaitBit (to_upper m) off) LHeader r (off + zlen m)
       | None =>
       match match_dir s with
-      | Some (m, r) => mk TDirection (to_upper m) off :: lex_from f LHeader r (off + zlen m)
+      | Some (m, r) => LEmit (mk TDirection (to_upper m) off) LHeader r (off + zlen m)
       | None =>
         match s with
-        | [] => [mk TEOF (B"EOF"%string) off]
+        | [] => LStop [mk TEOF (B"EOF"%string) off]
         | b :: r =>
-          if is_ws b then skip 1%nat
-          else if byte_eqb b x2e then mk TMsgEnd [b] off :: lex_from f LHeader r (off + 1)
-          else if byte_eqb b x3c then mk TLAB [b] off :: lex_from f LText r (off + 1)
+          if is_ws b then LSkip st r (off + 1)
+          else if byte_eqb b x2e then LEmit (mk TMsgEnd [b] off) LHeader r (off + 1)
+          else if byte_eqb b x3c then LEmit (mk TLAB [b] off) LText r (off + 1)
           else
             let '(r0, w0) := decode_rune s in
-            if is_space_rune r0 then skip w0
+            if is_space_rune r0 then LSkip st (skipn w0 s) (off + Z.of_nat w0)
             else
               (* a message name: up to a Unicode space, "//" or the end *)
               let name := scan_name (length s) (skipn w0 s) in
               let full := firstn w0 s ++ name in
-              mk TMsgName full off :: lex_from f LHeader (skipn (length full) s) (off + zlen full)
+              LEmit (mk TMsgName full off) LHeader (skipn (length full) s) (off + zlen full)
         end
       end end end
     | LText =>
       match match_ellipsis s with
-      | Some (m, r) => mk TEllipsis m off :: lex_from f LText r (off + zlen m)
+      | Some (m, r) => LEmit (mk TEllipsis m off) LText r (off + zlen m)
       | None =>
       match match_ident s with
       | Some (m, r) =>
         let u := to_upper m in
-        if mem_bytes u item_types then mk TItemType u off :: lex_from f LText r (off + zlen m)
-        else if bytes_eqb u [x54] || bytes_eqb u [x46] then mk TBool u off :: lex_from f LText r (off + zlen m)
+        if mem_bytes u item_types then LEmit (mk TItemType u off) LText r (off + zlen m)
+        else if bytes_eqb u [x54] || bytes_eqb u [x46] then LEmit (mk TBool u off) LText r (off + zlen m)
         else let '(ix, r') := match_indices (length r) r in
-             mk TVariable (m ++ ix) off :: lex_from f LText r' (off + zlen m + zlen ix)
+             LEmit (mk TVariable (m ++ ix) off) LText r' (off + zlen m + zlen ix)
       | None =>
         match s with
-        | [] => [mk TEOF (B"EOF"%string) off]
+        | [] => LStop [mk TEOF (B"EOF"%string) off]
         | b :: r =>
           let numstart := byte_eqb b x2b || byte_eqb b x2d || is_digit b ||
                           (byte_eqb b x2e && match r with d :: _ => is_digit d | [] => false end) in
           if numstart then
             let '(txt, r', ok) := lex_number s in
-            if ok then mk TNumber txt off :: lex_from f LText r' (off + zlen txt)
-            else [mkerr LEBadNumber txt off]
-          else if byte_eqb b x3c then mk TLAB [b] off :: lex_from f LText r (off + 1)
-          else if byte_eqb b x3e then mk TRAB [b] off :: lex_from f LText r (off + 1)
-          else if byte_eqb b x2e then mk TMsgEnd [b] off :: lex_from f LHeader r (off + 1)
+            if ok then LEmit (mk TNumber txt off) LText r' (off + zlen txt)
+            else LStop [mkerr LEBadNumber txt off]
+          else if byte_eqb b x3c then LEmit (mk TLAB [b] off) LText r (off + 1)
+          else if byte_eqb b x3e then LEmit (mk TRAB [b] off) LText r (off + 1)
+          else if byte_eqb b x2e then LEmit (mk TMsgEnd [b] off) LHeader r (off + 1)
           else if byte_eqb b x5b then
             match lex_size s with
-            | Some (raw, r') => mk TItemSize (remove_spaces raw) off :: lex_from f LText r' (off + zlen raw)
-            | None => [mkerr LEBadSize [] off]
+            | Some (raw, r') => LEmit (mk TItemSize (remove_spaces raw) off) LText r' (off + zlen raw)
+            | None => LStop [mkerr LEBadSize [] off]
             end
           else if byte_eqb b x22 then
             match lex_quoted s with
-            | Some (q, r') => mk TQuoted q off :: lex_from f LText r' (off + zlen q)
-            | None => [mkerr LEUnclosedString [] off]
+            | Some (q, r') => LEmit (mk TQuoted q off) LText r' (off + zlen q)
+            | None => LStop [mkerr LEUnclosedString [] off]
             end
-          else if is_ws b then skip 1%nat
-          else let '(rn, w) := decode_rune s in [mkerr LEUnexpectedChar (firstn w s) off]
+          else if is_ws b then LSkip st r (off + 1)
+          else let '(rn, w) := decode_rune s in LStop [mkerr LEUnexpectedChar (firstn w s) off]
         end
       end end
+    end.
+
+Fixpoint lex_from (fuel : nat) (st : lstate) (s : bytes) (off : Z) : list token :=
+  match fuel with
+  | O => []
+  | S f =>
+    match lex_step1 st s off with
+    | LEmit tok st' r off' => tok :: lex_from f st' r off'
+    | LSkip st' r off' => lex_from f st' r off'
+    | LStop l => l
     end
   end.
 
